@@ -330,6 +330,9 @@ func (h *cwHist) checkQuery(run *cwRun, tr *cwTaskRun, op COp, qs, qe int, at ma
 					continue
 				}
 				if _, ok := got[[2]int64{p[1], p[2]}]; !ok {
+					if !h.anyAcked(cellKey{m, int(p[1]), slot}) {
+						continue // the point came from a write that was refused (close): it was never promised
+					}
 					return mk("point_disappeared", fmt.Sprintf("point {%s t=%d} was returned to this reader by its query that finished at step %d and is missing now", sSeriesKey(int(p[1])), slot, seen[p]))
 				}
 			}
@@ -348,6 +351,17 @@ func (h *cwHist) checkQuery(run *cwRun, tr *cwTaskRun, op COp, qs, qe int, at ma
 		}
 	}
 	return nil
+}
+
+func (h *cwHist) anyAcked(k cellKey) bool {
+	for _, ws := range h.cells[k] {
+		for _, w := range ws {
+			if w.acked >= 0 {
+				return true
+			}
+		}
+	}
+	return false
 }
 
 // lastAcked: index of the last write in ws (issue order) acknowledged before step qs; -1 if none.
